@@ -311,6 +311,7 @@ def shard(ctx):
                 run_case(ctx, spec, msp, rng.choice(D.STYLES),
                          rng.getrandbits(32))
     lone_class_cases(ctx, rng, ctx.budget(600, 8000))
+    no_class_cases(ctx, rng, ctx.budget(1500, 20000))
 
 
 def lone_class_cases(ctx, rng, n):
@@ -363,6 +364,39 @@ def lone_class_cases(ctx, rng, n):
                 node = ['map', [[N.s_str('k'), node]], S_MAP]
             run_case(ctx, lone, node, rng.choice(['block', 'flow']),
                      rng.getrandbits(32), only='extra_classes')
+
+
+def no_class_cases(ctx, rng, n):
+    """Load functions without any user class: registering unrelated classes
+    must not change how tagged plain data is read."""
+    from vlib import plain as P
+    from checks import c04
+    for _ in range(n):
+        dt = rng.choice(['any', ['dict', 'str', 'any'], ['list', 'any'],
+                         ['dict', 'str', ['list', 'any']],
+                         ['union', 'int', ['list', 'any']]])
+        spec = {'classes': [], 'doc_type': dt, 'profile': 'no-class'}
+        v = P.rand_plain(rng, depth=rng.randint(1, 3), classes=('look',),
+                         finite=True, dates=False)
+        tree = D.spec_of(v)
+        n_out = [0]
+        tree = c04.decorate(tree, rng, ['Thing'], n_out)
+        if dt != 'any':
+            if dt[0] == 'list':
+                tree = ['seq', [tree], S_SEQ]
+            elif dt[0] == 'dict' and dt[2] == 'any':
+                tree = ['map', [[N_s('k'), tree]], S_MAP]
+            elif dt[0] == 'dict':
+                tree = ['map', [[N_s('k'), ['seq', [tree], S_SEQ]]], S_MAP]
+            else:
+                tree = ['seq', [tree], S_SEQ]
+        ctx.count('no_class_cases')
+        run_case(ctx, spec, tree, rng.choice(['block', 'flow']),
+                 rng.getrandbits(32), only='extra_classes')
+
+
+def N_s(v):
+    return ['s', 'tag:yaml.org,2002:str', v]
 
 
 S_SEQ = 'tag:yaml.org,2002:seq'
